@@ -7,8 +7,9 @@ package workceptor
 //
 // A daemon that is ended with SIGKILL never writes its `go build -cover` counters.  When
 // GOCOVERDIR is set, SIGUSR1 makes the process write them (meta data + counters) to that
-// directory; the harness sends it before it kills a daemon.  Without -cover the calls return
-// an error that is ignored; without GOCOVERDIR nothing is installed.
+// directory; the harness sends it right before it kills a daemon.  Writing the counters of a
+// running program needs -covermode=atomic; in the default mode the process exits instead, which
+// writes them as every normal exit does.  Without GOCOVERDIR nothing is installed.
 
 import (
 	"os"
@@ -27,7 +28,9 @@ func init() {
 	go func() {
 		for range ch {
 			_ = coverage.WriteMetaDir(dir)
-			_ = coverage.WriteCountersDir(dir)
+			if err := coverage.WriteCountersDir(dir); err != nil {
+				os.Exit(0)
+			}
 		}
 	}()
 }
